@@ -123,6 +123,7 @@ CONFIGS = {
     'quick': [{'retry': 30, 'idle_hold': 30}, {'retry': 10, 'idle_hold': 5}],
     'thorough': [{'retry': r, 'idle_hold': i} for r in (10, 30, 40) for i in (5, 30)],
 }
+FROM_EST = {'quick': 6, 'thorough': 8}
 DEPTH = {'quick': 7, 'thorough': 9}
 DEVK = {'quick': 1, 'thorough': 2}
 
@@ -136,6 +137,8 @@ def run(tier, seed):
     for cfg in CONFIGS[tier]:
         explore.bfs(h, cfg, DEPTH[tier], col, seed=seed, result=res, merge_all=(tier == 'thorough'), merge_lookahead=2,
                     run_state_checks=True)
+        explore.bfs(h, cfg, FROM_EST[tier], col, seed=seed, result=res, merge_all=(tier == 'thorough'), merge_lookahead=2,
+                    run_state_checks=True, start=(('TICK', 0), ('CONN_OK', 0), ('RX', 0, 'OPEN_OK'), ('RX', 0, 'KA')))
         for kind in ('coop', 'lateclose', 'silent', 'refuse'):
             kk, win = (2, 10) if tier == 'quick' else (DEVK[tier], 24)
             st = explore.deviations(h, cfg, kk, 40, col, script_kw={'kind': kind}, window=win)
@@ -147,7 +150,7 @@ def run(tier, seed):
         'traces_validated_against_impl': res.transitions + sum(d['executions'] for d in dev) + res.state_checks,
         'samples': res.samples, 'max_depth': res.max_depth, 'closed': res.closed,
         'depth_cap_hit': res.depth_cap_hit, 'distinct_observation_classes': len(res.obs_classes),
-        'merges': res.merges, 'merges_checked': res.merges_checked, 'diverged_transitions': res.diverged,
+        'merges': res.merges, 'merges_checked': res.merges_checked, 'merges_refuted_and_undone': res.refinements[:5], 'n_merges_refuted': len(res.refinements), 'diverged_transitions': res.diverged,
         'nested_recovery_checks': res.state_checks,
         'configs': CONFIGS[tier], 'deviation_bounded': dev, 'violation_keys': summary,
         'explanation': 'BFS to depth %d over the full menu including OP_STOP/OP_START in every reachable state '
